@@ -41,6 +41,8 @@ func (c *Checker) checkPattern(node ast.PatternNode, matchedType types.Type) (re
 		return c.checkSimpleLiteralPattern(n, matchedType)
 	case *ast.Int8LiteralNode:
 		return c.checkSimpleLiteralPattern(n, matchedType)
+	case *ast.UIntLiteralNode:
+		return c.checkSimpleLiteralPattern(n, matchedType)
 	case *ast.UInt64LiteralNode:
 		return c.checkSimpleLiteralPattern(n, matchedType)
 	case *ast.UInt32LiteralNode:
